@@ -959,6 +959,10 @@ func (ex *Ex) loopEntry(fr *Frame, st *State, li *loopInfo, b, prev *ssa.BasicBl
 	invs, cls := ex.loopInvariants(fr, st, li)
 	for i, t := range invs {
 		name := fmt.Sprintf("%s#loop%d.entry.%d", ex.topPrefix(fr), li.Ord, cls[i].Ord)
+		if !ex.owesInvariant(fr, cls[i]) {
+			st.Assume(t) // proved under the properties the contract names
+			continue
+		}
 		ex.oblige(fr, st, name, "loopentry", ex.clauseProps(fr, cls[i]), "loop invariant holds on entry: "+cls[i].Text, t, b.Instrs[0].Pos())
 	}
 	if li.Spec != nil && li.Spec.Isolated && fr == ex.Top {
@@ -1026,9 +1030,30 @@ func (ex *Ex) loopBackEdge(fr *Frame, st *State, li *loopInfo, b, prev *ssa.Basi
 	invs, cls := ex.loopInvariants(fr, st, li)
 	for i, t := range invs {
 		name := fmt.Sprintf("%s#loop%d.preserve.%d", ex.topPrefix(fr), li.Ord, cls[i].Ord)
+		if !ex.owesInvariant(fr, cls[i]) {
+			continue
+		}
 		ex.oblige(fr, st, name, "looppreserve", ex.clauseProps(fr, cls[i]), "loop invariant is preserved: "+cls[i].Text, t, b.Instrs[0].Pos())
 	}
 	// path ends here
+}
+
+// owesInvariant: an unscoped invariant of a function whose contract does not name the property
+// under check is proved under the properties that contract names; here it is only assumed.
+func (ex *Ex) owesInvariant(fr *Frame, c *Clause) bool {
+	if ex.Props == nil {
+		return true
+	}
+	ps := ex.clauseProps(fr, c)
+	if len(ps) == 0 {
+		return true
+	}
+	for _, p := range ps {
+		if ex.Props[p] {
+			return true
+		}
+	}
+	return false
 }
 
 func (ex *Ex) clauseProps(fr *Frame, c *Clause) []string {
